@@ -119,12 +119,24 @@ Definition al := approx_list.
             c["num"] = rng.randint(1, 4)
         return c
 
+    PURE = ("append", "ov_lin", "ov_pc", "ext_lin", "ext_const", "integral", "sum_idx", "average", "avg_roundtrip")
+
     def run(self, c):
+        """the helpers are pure functions: the array handed in is unchanged afterwards and the same call gives the same answer"""
+        a = np.array(c["a"], dtype=float)
+        held = a.copy()
+        r = self.run1(c, held)
+        if c["op"] in self.PURE and "exc" not in r:
+            r["input_mutated"] = not np.array_equal(held, a)
+            r2 = self.run1(c, held)
+            r["second_call_differs"] = {k: v for k, v in r2.items()} != {k: v for k, v in r.items() if k not in ("input_mutated",)}
+        return r
+
+    def run1(self, c, a):
         import traffic_weaver.sorted_array_utils as sau
         from traffic_weaver.interval import IntervalArray
         from traffic_weaver.process import average
         op, n = c["op"], c["n"]
-        a = np.array(c["a"], dtype=float)
         try:
             if op == "append":
                 x, y = sau.append_one_sample(a, np.array(c["y"], dtype=float), make_periodic=c["periodic"])
@@ -186,6 +198,10 @@ Definition al := approx_list.
         op, n = c["op"], c["n"]
         A = qlist(c["a"])
         tol = tol_for(list(c["a"]) + list(c.get("y", [])) + [c.get("lstart") or 0, c.get("rstop") or 0, c.get("val") or 0])
+        if o.get("input_mutated"):
+            fail("input-mutated", "the array handed in by the caller was modified")
+        if o.get("second_call_differs"):
+            fail("second-call", "the same call on the same array gave another result the second time")
         if "exc" in o:
             if op == "integral" and c["rule"] == "simpson":
                 return "res_match (al %s) (integral %s %s UnknownRule) (OExn %s)" % (tol, A, qlist(c["y"]), o["exc"])
